@@ -536,9 +536,24 @@ def emit_closure_fn(w, spec):
         raise Undecided(f"anchor lost: closure {k} of {spec['path']} (function has {len(cls)} closures)")
     c = cls[k]
     names = [p["simple"] for p in c["inputs"]]
-    if None in names or names != spec.get("closure_params", names):
-        raise Undecided(f"R5: closure {k} of {spec['path']} has parameters {names}, contract expects {spec.get('closure_params')}")
     src = w.ix.source(it["file"])
+    pre_lets = []
+    if None in names:
+        # pattern parameters (`|(a, b)|`): the sidecar names the function parameter that stands for the whole pattern
+        # (`closure_params`), and `let PATTERN = that_name;` becomes the first statement of the body (R2)
+        cps = spec.get("closure_params") or []
+        if len(cps) != len(names):
+            raise Undecided(f"R5: closure {k} of {spec['path']} has pattern parameters; the sidecar must name {len(names)} closure_params")
+        for j, p_ in enumerate(c["inputs"]):
+            if p_["simple"] is None:
+                ptxt = src[p_["span"][0]:p_["span"][1]].decode("utf-8")
+                if p_["typed"]:
+                    ptxt, _ty = split_typed_pat(ptxt)
+                pre_lets.append(f"let {ptxt} = {cps[j]};")
+            elif p_["simple"] != cps[j]:
+                raise Undecided(f"R5: closure {k} of {spec['path']} has parameters {names}, contract expects {cps}")
+    elif names != spec.get("closure_params", names):
+        raise Undecided(f"R5: closure {k} of {spec['path']} has parameters {names}, contract expects {spec.get('closure_params')}")
     bs, be = c["body"]
     ed = Edits(bs, src[bs:be])
     for m in it.get("macros", []):
@@ -554,6 +569,9 @@ def emit_closure_fn(w, spec):
     body, fired = ed.apply()
     if not c["body_is_block"]:
         body = "{ " + body + " }"      # an expression-bodied closure `|x| e` means `|x| { e }`
+    if pre_lets:
+        body = "{ " + " ".join(pre_lets) + " " + body + " }"
+        fired.append("R2")
     hdr = []
     if spec.get("requires"):
         hdr.append("    requires")
